@@ -25,7 +25,7 @@ Require Import MPSV.PolFile.Chars MPSV.PolFile.DecRatModel MPSV.PolFile.PolModel
 Require Import MPSV.PolFile.RoundTripText MPSV.PolFile.RoundTripLines MPSV.PolFile.RoundTripOptions MPSV.PolFile.RoundTripSettings MPSV.PolFile.RoundTrip.
 Require Import MPSV.PolFile.DecRat MPSV.PolFile.FloatPrec.
 Require Import MPSV.PolFile.V2Model MPSV.PolFile.RoundTripLegacy MPSV.PolFile.StoreModel MPSV.PolFile.StoreProofs.
-Require Import MPSV.PolFile.CIntProofs MPSV.PolFile.CIntParse.
+Require Import MPSV.PolFile.CIntProofs MPSV.PolFile.CIntParse MPSV.PolFile.SetterModel MPSV.PolFile.SetterProofs.
 Import ListNotations.
 Local Open Scope char_scope.
 
@@ -578,3 +578,64 @@ Theorem C10_checked_conversion_agrees : forall (lo hi : Z) (ds : text), (INT_MIN
   | None => True end.
 Proof. exact checked_digits_agrees. Qed.
 Print Assumptions C10_checked_conversion_agrees.
+
+(* ------------------------------------------------------------------ the public coefficient setters *)
+
+(* mps_monomial_poly_set_coefficient_{int,q,s,d,f} (SetterModel.v: each statement by statement on
+   structure, initial_mqp_r/i, mfpc, spar).  GET AFTER SET, for EVERY sequence of calls on a fresh
+   polynomial of degree n that returns (no assertion failed, indices in 0..n): the exact store holds at
+   every index the value given by the LAST call of an exact setter (_int, _q, _s) on that index - for
+   _s the canonical fraction the strings denote (api_coeff_raw: C10_api_value_correct) - or 0/1 when
+   there was none, whatever was called in between; and spar[i] says whether the last value written at
+   i by ANY setter was non-zero *)
+Theorem C10_setters_get_after_set : forall (n : nat) (ops : list op) (m : mstate),
+  run ops (m_new n) = SOk m ->
+  forall i, (i <= n)%nat ->
+    nth i (m_q m) (raw0, raw0) = match last_exact i ops None with Some v => v | None => (raw0, raw0) end
+    /\ nth i (m_spar m) false = match last_nonzero i ops None with Some v => v | None => false end.
+Proof. exact new_get_after_set. Qed.
+Print Assumptions C10_setters_get_after_set.
+
+(* the same from any state (a parsed polynomial, an earlier sequence) *)
+Theorem C10_setters_get_after_set_any_state : forall (ops : list op) (m m' : mstate),
+  lens_ok m -> run ops m = SOk m' ->
+  lens_ok m' /\ length (m_q m') = length (m_q m)
+  /\ (forall i d, nth i (m_q m') d = match last_exact i ops (Some (nth i (m_q m) d)) with Some v => v | None => d end)
+  /\ (forall i d, nth i (m_spar m') d = match last_nonzero i ops (Some (nth i (m_spar m) d)) with Some v => v | None => d end).
+Proof. exact run_get_after_set. Qed.
+Print Assumptions C10_setters_get_after_set_any_state.
+
+(* which calls do not return: an index above the degree writes past the arrays (the setters do not check
+   it) *)
+Theorem C10_setter_out_of_bounds_iff : forall (m : mstate) (o : op),
+  step m o = SOutOfBounds <-> (length (m_q m) <= op_index o)%nat.
+Proof. exact step_outcome. Qed.
+Print Assumptions C10_setter_out_of_bounds_iff.
+
+(* NOT PROVED YET (parked in coq/scratch/SetterProofs_rest.v, the case analysis as written exhausts memory):
+   the assertion of a setter fails exactly when the polynomial already has a structure of another family
+   (_int on anything but Integer, _q/_s on FloatingPoint, _d on anything but FloatingPoint; _f never), and
+   any sequence of calls of ONE family on a fresh polynomial returns with the structure Real/Complex of
+   that family, Complex iff some call had a non-zero imaginary part.  Both are exercised by the tie
+   (assertion aborts and structures of the real setters against the extracted model on every run). *)
+
+(* REFUTED for mixed families: after _int, a call of _q / _s with a value that is not an integer, or not
+   real, returns and leaves the structure Real Integer (replayed on the real setters by the check) *)
+Theorem C10_setters_mixed_structure_refuted :
+  exists (ops : list op) (m : mstate),
+    run ops (m_new 1) = SOk m /\ m_struct m = Some S_RI
+    /\ nth 1 (m_q m) (raw0, raw0) = ((1, 2), (1, 3))%Z /\ get_q m 1 = Some ((1, 2), (1, 3))%Z.
+Proof.
+  exists [OpInt 0 5 0; OpS 1 (Some (kw "0.5")) (Some (kw "1/3"))]. eexists. split; [vm_compute; reflexivity|].
+  vm_compute. repeat split; reflexivity.
+Qed.
+Print Assumptions C10_setters_mixed_structure_refuted.
+
+Example C10_example_setters :
+  (exists m, run [OpS 0 (Some (kw "-1.5e1")) None; OpQ 1 (7, 1)%Z (0, 1)%Z; OpS 0 (Some (kw "2/4")) (Some (kw ".5"))] (m_new 1) = SOk m
+             /\ m_struct m = Some S_CQ /\ m_q m = [((1, 2), (1, 2)); ((7, 1), (0, 1))]%Z /\ m_spar m = [true; true])
+  /\ run [OpQ 0 (1, 2)%Z (0, 1)%Z; OpInt 1 7 0] (m_new 1) = SAbort
+  /\ run [OpD 0 (3 # 2) 0; OpQ 1 (1, 2)%Z (0, 1)%Z] (m_new 1) = SAbort
+  /\ run [OpInt 2 1 0] (m_new 1) = SOutOfBounds
+  /\ (exists m, run [OpD 0 (3 # 2) 0; OpF 1 0 (1 # 4)] (m_new 1) = SOk m /\ m_struct m = Some S_RF /\ get_q m 0 = None).
+Proof. vm_compute. repeat split; try reflexivity; eexists; repeat split; reflexivity. Qed.
